@@ -17,7 +17,7 @@ EXTENDS SenderImpl, Json, IOUtils
 
 Traces == JsonDeserialize(IOEnv.TRACE_FILE)
 VARIABLES tid, l
-tvars == <<printing, clear, resendfrom, lineno, queueindex, sentlines, started, wire, replies,
+tvars == <<printing, clear, resendfrom, lineno, queueindex, sentlines, started, pendinc, wire, replies,
            expected, accepted, ncorrupt, ntx, nokc, piped, m110bad, tid, l>>
 
 Ev == Traces[tid].ev[l]
@@ -34,13 +34,13 @@ RelStep ==
   /\ replies # <<>> /\ Head(replies).k = Ev.kind /\ (Ev.kind = "resend" => Head(replies).n = Ev.n)
   /\ Reader
   /\ l' = l + 1 /\ UNCHANGED tid
-FwStep == Firmware /\ UNCHANGED <<tid, l>>          \* not logged: inferred
+FwStep == (Firmware \/ ResendInc) /\ UNCHANGED <<tid, l>>          \* not logged: inferred
 EndStep ==
   /\ More /\ Ev.k = "end"
   /\ ~printing /\ wire = <<>> /\ replies = <<>>
   /\ PrintT(<<"A", tid>>)
   /\ l' = l + 1
-  /\ UNCHANGED <<printing, clear, resendfrom, lineno, queueindex, sentlines, started, wire, replies,
+  /\ UNCHANGED <<printing, clear, resendfrom, lineno, queueindex, sentlines, started, pendinc, wire, replies,
                  expected, accepted, ncorrupt, ntx, nokc, piped, m110bad, tid>>
 TNext == TxStep \/ RelStep \/ FwStep \/ EndStep
 TSpec == TInit /\ [][TNext]_tvars
